@@ -313,6 +313,12 @@ Definition step (w : world) (o : op) : world :=
 Definition retype (f : mtype -> mtype) (o : op) : op :=
   match o with Write ty p => Write (f ty) p | _ => o end.
 
+(* What a message shows (LogMessage::formattedMessage()): the formatted text once one has been set - isFormatted() is
+   !isNull(), so the EMPTY string counts as set - else the raw message text.  It is the shown text that IODeviceSink::send()
+   writes and that rotateIfNeeded() measures; the raw text of a formatted message plays no part. *)
+Definition shown_text (raw : str) (fmt : option str) : str := match fmt with Some f => f | None => raw end.
+Definition WriteMsg (ty : mtype) (raw : str) (fmt : option str) : op := Write ty (shown_text raw fmt).
+
 (* the directory right after the first sink object was constructed at time t0: an empty active file *)
 Definition w0 (t0 : time) : world :=
   {| gone := []; rot := []; act := []; act_mt := stamp (cgran c) (clamp t0); now := clamp t0;
